@@ -44,6 +44,7 @@ type c09Result struct {
 	errSeen   error
 	getErrs   []error // per probe key: the error of the buffering lookup (Get), stores only
 	truncHuge bool
+	endless   string // an enumeration that delivered more items than the input has bytes
 }
 
 func c09Profile(entry string, r *Rng) string {
@@ -190,6 +191,8 @@ func runEntry(entry string, data []byte, profile string, del sim.Delivery, opts 
 				for range ch {
 					n++
 					if n > limit {
+						// every key takes at least one byte of input: this listing is not going to end
+						res.endless = fmt.Sprintf("AllKeysChan delivered %d keys from %d bytes of input and was still going", n, len(data))
 						break
 					}
 				}
@@ -365,6 +368,9 @@ func runC09Case(t *Trace, l *Layout, data []byte, st *Stats) *Violation {
 	if el > 10*time.Second {
 		return viol("medium/nontermination/"+loc, "%s took %v on a %d-byte input", ms.Entry, el, len(data))
 	}
+	if res.endless != "" {
+		return viol("medium/nontermination/"+loc, "%s: %s", ms.Entry, res.endless)
+	}
 	if b := allocBound(ms.Opts, len(data)) + uint64(res.apiCalls)*c09PerCall; res.alloc > b {
 		// identify the allocating site: re-run the case with full allocation profiling
 		site := allocSite(func() { runEntry(ms.Entry, data, ms.Profile, ms.Del, ms.Opts, ms.Choices, probes, tmp) })
@@ -527,6 +533,13 @@ func c09Mutations(l *Layout, r *Rng, n int) [][]Mut {
 		if f.Kind == "varint" {
 			for _, k := range []uint64{1, 2, 3, 9, 10, 11, 12, 34, 35, 36, 37, 38, 44, 45, 46, 47, 48} {
 				out = append(out, []Mut{{Kind: "field", Field: f.Name, Val: ^uint64(0) - k + 1}})
+			}
+			if l.Spec.V2 && strings.HasPrefix(f.Name, "sec") {
+				// the same inside a CARv2 whose header still describes the (now longer) payload correctly, so
+				// that the entry points that trust the container get as far as the section
+				for _, v := range []uint64{^uint64(0) - 9, ^uint64(0) - 10, ^uint64(0) - 45, 1 << 63, 1<<63 - 1, 1 << 36} {
+					out = append(out, []Mut{{Kind: "fieldfix", Field: f.Name, Val: v}})
+				}
 			}
 		}
 	}
